@@ -10,7 +10,7 @@ pub fn h_max<T: Encode + MaxEncodedLen + Sym, const N: usize>(tight: bool) {
 	v.encode_to(&mut b);
 	assert!(b.n <= T::max_encoded_len(), "a value encodes to more bytes than max_encoded_len()");
 	assert!(v.encoded_size() == b.n, "encoded_size differs from the produced length");
-	if tight { kani::cover!(b.n == T::max_encoded_len(), "reach: the declared maximum is attained"); }
+	if tight { kani::cover!(b.n == T::max_encoded_len(), "info: the declared maximum is attained"); }
 	kani::cover!(true, "reach: end of harness");
 }
 pub fn h_const<T: Encode + ConstEncodedLen + Sym, const N: usize>() {
